@@ -77,12 +77,22 @@ def run(ctx: Ctx):
         "constructors of Comparison / ComparisonLevel / BlockingRule / Settings called with fresh dictionaries do not reach back "
         "into the creators (their arguments carry no alias to the creator)",
         "free interpretation of the method bodies' pure computations (equal observation logs imply equal results)",
+        "cross-instance state: constructors are analysed with every defaulted parameter at its default; mutable defaults, "
+        "module-level and class-level mutable objects are static roots whose mutation / storage by reference is rejected; "
+        "SplinkDialect's instance cache is outside (immutable singletons)",
     ]
     ok = ctx.proof_stage("Properties/C17.v")
     if not ok:
         ctx.violation("theorems of Properties/C17.v no longer check", {"broken": "Properties/C17.v"}, found_input=False)
     grid = G.grid()
     from harness import c17_x
+    # before anything else constructs a creator in this process: what fresh creators return
+    baseline = None
+    if not ctx.replay:
+        first = c17_x.record_all(grid)
+        order = list(range(len(grid)))
+        ctx.rng.shuffle(order)
+        baseline = (first, c17_x.record_all(grid, order))
     if ctx.replay:
         import json
         rp = json.loads(open(ctx.replay).read())
@@ -93,7 +103,7 @@ def run(ctx: Ctx):
             c17_x.correspondence(ctx, items, allp, only=(case["entry"], case["sequence"]))
             return
     allp, pure, bad = translator_stage(ctx, grid)
-    found = c17_x.correspondence(ctx, grid, allp)
+    found = c17_x.correspondence(ctx, grid, allp, baseline=baseline)
     # failed obligations without a concrete failing input from X
     for p in allp:
         if p.get("pure", False):
